@@ -106,6 +106,15 @@ type c19sink struct {
 	t *c19target
 }
 
+// c19composite: what a factory returns that opened its destination through
+// zap.Open; closing it runs the close function Open handed out.
+type c19composite struct {
+	zapcore.WriteSyncer
+	done func()
+}
+
+func (s c19composite) Close() error { s.done(); return nil }
+
 func (w *c19world) target(g *zsim.Stream, f *zsim.Stream) *c19target {
 	w.n++
 	t := &c19target{}
@@ -128,6 +137,22 @@ func (w *c19world) target(g *zsim.Stream, f *zsim.Stream) *c19target {
 				return nil, fmt.Errorf("injected open failure of %s", name)
 			}
 			return c19sink{tt.sink, tt}, nil
+		}
+		if g.Chance(5) {
+			// a composite sink: its factory opens the real destination through
+			// zap.Open itself (as a tee:// or rotate+file:// scheme would), so the
+			// registry is entered again from inside a factory call
+			inner := name + "-inner"
+			w.table[inner] = w.table[name]
+			t.sink.CloseErr = nil
+			w.table[name] = func(u *url.URL) (zap.Sink, error) {
+				ws, done, err := zap.Open("zsim://" + inner + "/x")
+				if err != nil {
+					return nil, err
+				}
+				return c19composite{ws, done}, nil
+			}
+			w.c.R.Probe("sink factory that opens its destination through zap.Open")
 		}
 		t.raw = "zsim://" + name + "/x"
 		if t.kind == tkSim && g.Chance(4) {
